@@ -132,15 +132,37 @@ func (w *c13World) close() {
 	os.Remove(w.q)
 }
 
+// c13Incomplete: members that are invalid because their tree is incomplete (indexes 8, 9, 10 of the batch alphabet).
+func c13Incomplete(file int) []*updogv1.Query {
+	a1 := toProto(c13Queries(file)[0].Expr)
+	return []*updogv1.Query{
+		{Expr: pAnd(a1, &pexpr{})}, // an operand whose oneof is unset
+		{Expr: pNot(nil)},          // NOT without operand
+		{GroupBy: []string{"a"}},   // no expression at all
+	}
+}
+
 func c13CheckBatch(w *c13World, c c13Case) string {
 	qs := c13Queries(c.File)
+	inc := c13Incomplete(c.File)
 	ids := c13IDs(c.IDs, len(c.Batch))
 	req := &updogv1.QueryRequest{}
 	var want []string
 	invalid := false
 	for i, qi := range c.Batch {
+		if qi >= len(qs) {
+			m := inc[qi-len(qs)]
+			req.Queries = append(req.Queries, &updogv1.Query{Id: ids[i], Expr: m.Expr, GroupBy: m.GroupBy})
+			invalid = true
+			continue
+		}
 		q := qs[qi]
-		req.Queries = append(req.Queries, &updogv1.Query{Id: ids[i], Expr: toProto(q.Expr), GroupBy: q.GroupBy})
+		pq := &updogv1.Query{Id: ids[i], Expr: toProto(q.Expr), GroupBy: q.GroupBy}
+		req.Queries = append(req.Queries, pq)
+		// the conversion of a query must be lossless
+		if cq := convert.ToQuery(pq); cq.Expr == nil || cq.Expr.String() != q.Expr.Updog().String() || !reflect.DeepEqual(cq.GroupBy, q.GroupBy) {
+			return fmt.Sprintf("ToQuery converts query %d to %v group by %v, expected %s group by %v", qi, cq.Expr, cq.GroupBy, q.Expr.Updog().String(), q.GroupBy)
+		}
 		res, err := w.lib.Execute(&updog.Query{Expr: q.Expr.Updog(), GroupBy: append([]string{}, q.GroupBy...)})
 		if err != nil {
 			invalid = true
@@ -249,8 +271,11 @@ func c13Worker(ctx *rt.Ctx, job *rt.Job) []*rt.Violation {
 	defer w.close()
 	var vs []*rt.Violation
 	base := c13Case{File: a.File, Cache: a.Cache, Preload: a.Preload}
-	nq := len(c13Queries(a.File))
 	for l := 0; l <= a.MaxLen; l++ {
+		nq := len(c13Queries(a.File))
+		if l <= 2 {
+			nq += 3 // incomplete members too
+		}
 		idx := make([]int, l)
 		for {
 			for _, pat := range c13IDPatterns {
@@ -287,6 +312,25 @@ func c13Worker(ctx *rt.Ctx, job *rt.Job) []*rt.Violation {
 			break
 		}
 	}
+	// long batches: expensive queries first, cheap ones after (a server that answers out of request order shows here),
+	// all queries in order / reversed / repeated, an invalid member at the end
+	long := [][]int{{6, 2, 0, 4, 0, 4}, {2, 6, 5, 1, 0, 3, 4, 0}, {0, 1, 2, 3, 4, 5, 6}, {6, 5, 4, 3, 2, 1, 0}, {6, 0, 0, 0}, {2, 0, 4, 0, 4, 0, 4, 0, 4, 0, 4, 0}, {6, 2, 0, 4, 7}, {0, 4, 0, 4, 9}}
+	for rep := 0; rep < 3; rep++ {
+		for _, b := range long {
+			for _, pat := range c13IDPatterns {
+				c := base
+				c.Kind, c.Batch, c.IDs = "batch", b, pat
+				ctx.Cov.Add("evaluations", 1)
+				ctx.Cov.Add("rpcs", 1)
+				ctx.Cov.Add("distinct_nontrivial", 1)
+				ctx.Cov.Add("long_batches", 1)
+				if m := c13CheckBatch(w, c); m != "" {
+					vs = append(vs, rt.NewViolation("C13", "batch", c.sig(), c, "%s", m))
+					return vs
+				}
+			}
+		}
+	}
 	// the sql driver through grpc:// vs file: (on a second copy of the file)
 	b, _ := os.ReadFile(w.q)
 	os.WriteFile(w.q+".drv", b, 0o644)
@@ -316,8 +360,8 @@ func c13Run(ctx *rt.Ctx) []*rt.Violation {
 		for _, cache := range []bool{true, false} {
 			for _, pre := range []bool{false, true} {
 				ml := maxLen
-				if !ctx.Thorough() && f == 0 && cache && !pre {
-					ml = 3 // the default server configuration gets the full bound in the quick tier too
+				if f == 0 && cache && !pre {
+					ml = maxLen + 1 // the default server configuration gets one more (quick 3, thorough 4)
 				}
 				b, _ := json.Marshal(c13Args{File: f, Cache: cache, Preload: pre, MaxLen: ml})
 				jobs = append(jobs, rt.Job{Name: "batches", NShards: 1, Args: b})
@@ -326,7 +370,7 @@ func c13Run(ctx *rt.Ctx) []*rt.Violation {
 	}
 	outs := rt.RunJobs(ctx, jobs, rt.SpawnOpt{})
 	vs := rt.Collect(ctx, outs, nil)
-	ctx.Cov.Note("rule", fmt.Sprintf("3 index files x server options {cache on/off} x {preload on/off}: every batch of length 0..%d over 8 queries (ungrouped, grouped by 1-2 columns, no match, NOT/OR/AND, one invalid) x id patterns {all 0, explicit, duplicate, mixed} is sent to a real `updog server`; the response must hold one result per query in order with the id rule and the library's count and groups (library Execute on a copy of the file), an invalid member must fail the whole call; ToResult(ToProtobufResult(r)) == r for every library result; the 8 texts through sql.Open grpc:// and file: must give identical columns and rows; non-trivial = batches of >=2 queries and the driver comparisons", maxLen))
+	ctx.Cov.Note("rule", fmt.Sprintf("3 index files x server options {cache on/off} x {preload on/off}: every batch of length 0..%d over 8 queries (ungrouped, grouped by 1-2 columns, no match, NOT/OR/AND, one with an unknown column; for length <=2 also 3 structurally incomplete members) and 8 long batches of 4..12 queries (expensive first) x id patterns {all 0, explicit, duplicate, mixed} is sent to a real `updog server`; the response must hold one result per query in order with the id rule and the library's count and groups (library Execute on a copy of the file), an invalid member must fail the whole call; ToResult(ToProtobufResult(r)) == r for every library result; the 8 texts through sql.Open grpc:// and file: must give identical columns and rows; non-trivial = batches of >=2 queries and the driver comparisons", maxLen))
 	ctx.Assumef("index strings are valid UTF-8 (protobuf strings cannot carry other bytes)")
 	return vs
 }
